@@ -1414,8 +1414,15 @@ def gen_pipeline():
     open(os.path.join(GEN, 'Pipeline.v'), 'w').write(src)
     ok, log = compile_gen('Pipeline.v')
     closed = log.count('Closed under the global context') == 2
+    if ok and closed:
+        open(os.path.join(GEN, 'Pipeline2.v'), 'w').write(open(os.path.join(_V, 'harness', 'pipeline2_proof.v.txt')).read())
+        ok2, log2 = compile_gen('Pipeline2.v')
+        closed2 = log2.count('Closed under the global context') == 2
+        if not (ok2 and closed2):
+            return ('pipeline: composition down to the count matrix (gen_matrix_sum, gen_matrix_diag)', False, log2[-600:])
     return ('pipeline: generated jump scan applied to the generated event extraction = consecutive distinct visited sites (default settings), and a subset of them '
-            'for stricter settings (gen_pipeline_default, gen_pipeline_strict; closed under the global context)', ok and closed, 'ok' if ok and closed else log[-600:])
+            'for stricter settings (gen_pipeline_default, gen_pipeline_strict); composed with the count-matrix model: the jump matrix sums to the number of changes of '
+            'visited site and has an empty diagonal (gen_matrix_sum, gen_matrix_diag); all closed under the global context', ok and closed, 'ok' if ok and closed else log[-600:])
 
 
 # ---------------------------------------------------------------- unit: shape of mean_squared_displacement (C06)
